@@ -52,7 +52,9 @@ func (m *vC09Mon) PublishMetric(_ context.Context, mt *api.Metric) error {
 	defer m.mu.Unlock()
 	k := len(m.pubs)
 	fail := k < len(m.errs) && m.errs[k]
-	m.pubs = append(m.pubs, vC09Pub{t: int64(time.Since(m.start)), e: mt.Expire - m.start.UnixNano(), err: fail})
+	// t on the wall clock, like Expire (api.Metric.Expired compares Expire with the wall clock): time.Since would use the
+	// monotonic reading, and a wall clock that is being slewed then makes e-t exceed the TTL asked for by a hair
+	m.pubs = append(m.pubs, vC09Pub{t: time.Now().UnixNano() - m.start.UnixNano(), e: mt.Expire - m.start.UnixNano(), err: fail})
 	if fail {
 		return errors.New("scripted publish error")
 	}
@@ -89,7 +91,7 @@ func vC09Measure(c vC09Case) ([]vC09Pub, int64) {
 	<-done
 	mon.mu.Lock()
 	defer mon.mu.Unlock()
-	return append([]vC09Pub{}, mon.pubs...), int64(time.Since(mon.start))
+	return append([]vC09Pub{}, mon.pubs...), time.Now().UnixNano() - mon.start.UnixNano()
 }
 
 func vC09ChainOK(p []vC09Pub) bool {
@@ -98,6 +100,19 @@ func vC09ChainOK(p []vC09Pub) bool {
 	}
 	for i := 0; i+1 < len(p); i++ {
 		if !(p[i+1].t < p[i].e) {
+			return false
+		}
+	}
+	return true
+}
+
+// the other clause of ping_okb (Model/C09_Check.v): each metric is still stamped with more than one interval and at most two
+// when it reaches PublishMetric. A stall of the test process between SetTTL and PublishMetric longer than the interval makes a
+// measurement miss it; such a measurement is repeated (three attempts in all, like a broken chain), a TTL the code stamps too
+// short or too long fails all three.
+func vC09PingTTLOK(p []vC09Pub, iv int64) bool {
+	for _, x := range p {
+		if !(x.e-x.t <= 2*iv && iv < x.e-x.t) {
 			return false
 		}
 	}
@@ -191,7 +206,8 @@ func TestVerifCadenceC09(t *testing.T) {
 			for a := 1; a <= 3; a++ {
 				res[i], tends[i] = vC09Measure(cases[i])
 				tries[i] = a
-				if vC09ChainOK(res[i]) && len(res[i]) > 0 && tends[i] < res[i][len(res[i])-1].e {
+				if vC09ChainOK(res[i]) && len(res[i]) > 0 && tends[i] < res[i][len(res[i])-1].e &&
+					(cases[i].Kind != "ping" || vC09PingTTLOK(res[i], int64(cases[i].Ms)*int64(time.Millisecond))) {
 					return
 				}
 			}
